@@ -403,6 +403,7 @@ func (sh *SequenceHandler) RolloverRequired(seqNum uint32) bool {
 	default:
 		// Zero is only used as a rollover indicator and safeguard.
 		sh.highest = 0
+		verifSeqReset(sh)
 		return true
 	}
 }
@@ -416,6 +417,7 @@ func (sh *SequenceHandler) Reset() {
 
 	sh.highest = 0
 	sh.outSeq.Store(0)
+	verifSeqReset(sh)
 }
 
 // ResetIn resets only the incoming sequence counter.
@@ -427,6 +429,7 @@ func (sh *SequenceHandler) ResetIn() {
 	defer sh.lock.Unlock()
 
 	sh.highest = 0
+	verifSeqReset(sh)
 }
 
 // ResetOut resets only the outgoing sequence counter.
@@ -455,6 +458,7 @@ func (sh *SequenceHandler) recvRate() uint8 {
 func (sh *SequenceHandler) Check(seqNum uint32) error {
 	sh.lock.Lock()
 	defer sh.lock.Unlock()
+	defer verifSeqCheck(sh, seqNum, sh.highest, sh.bitMap)
 
 	switch {
 	case seqNum == sh.highest:
